@@ -207,11 +207,14 @@ LEVEL_TEXT["C14"] = {
     "text": "Theorem parse_at_spec: for every buffer, cursor, class, order and non-zero alignment, one step of note iteration equals the ABI "
             "record at the cursor (12-byte header of three 32-bit words for both classes, name window, padding to align, descriptor window, "
             "padded end as next cursor) with the crate's typed reading (GNU ABI tag needs 16 bytes / build id / untyped), and fails exactly "
-            "when no record fits; padUp is the least multiple of align >= x; zero alignment yields nothing; name_str = UTF-8 check + strip "
-            "of all trailing NULs; each yield advances the cursor by >= 12. Tied to note.rs by a residue sweep over every (namesz, descsz) "
-            "mod align, arbitrary alignments, truncation and trailing garbage, and an independent reference walker.",
+            "when no record fits. List level: collect_eq_layout / iteration_is_layout - the whole iteration equals `layout`, the list of "
+            "records laid out back to back from offset 0, one note per record in order, ending at the first record that does not fit, for "
+            "every byte string; zero_align_collect - a zero alignment yields nothing. padUp is the least multiple of align >= x; name_str = "
+            "UTF-8 check + strip of all trailing NULs; each yield advances the cursor by >= 12. Tied to note.rs by a residue sweep over every "
+            "(namesz, descsz) mod align with the swept record in middle and last position, arbitrary alignments, truncation and trailing "
+            "garbage, bare 12-byte records, and an independent reference walker.",
     "note": COMMON_NOTE,
-    "technique": "Lean 4 proof (step = ABI record) + differential correspondence + reference note walker",
+    "technique": "Lean 4 proof (step = ABI record; iteration = back-to-back layout) + differential correspondence + reference note walker",
 }
 LEVEL_TEXT["C16"] = {
     "text": "All loops of the model are structural recursions on explicit fuel (termination kernel-checked); theorems show the supplied fuel "
